@@ -69,6 +69,10 @@ type panics struct {
 	rec []panicRec
 }
 
+// theCtx lets a recovered panic be reported at once: a panic inside a callback leaves hive.go's execution locks
+// held (they are not released by defer), so the rest of the run may block for ever.
+var theCtx *vf.Ctx
+
 func (p *panics) guard(who string) {
 	if r := recover(); r != nil {
 		p.mu.Lock()
@@ -76,8 +80,13 @@ func (p *panics) guard(who string) {
 		if len(st) > 3000 {
 			st = st[:3000]
 		}
-		p.rec = append(p.rec, panicRec{who, fmt.Sprint(r), st})
+		rec := panicRec{who, fmt.Sprint(r), st}
+		p.rec = append(p.rec, rec)
 		p.mu.Unlock()
+		if theCtx != nil {
+			scn, _ := curScenario.Load().(string)
+			theCtx.Violation("panic/"+scn+"/"+digitsRe.ReplaceAllString(rec.Value, "N"), "panic inside a hive.go call ("+who+"): "+rec.Value, caseRef{Scenario: scn, Run: int(curRun.Load()), Race: raceBuild, Seed: theCtx.Seed, Detail: rec})
+		}
 	}
 }
 
@@ -161,9 +170,8 @@ func mstr(m uint32) string {
 func runDV(rng *rand.Rand) (viols []viol, st runStats) {
 	n := 1 + rng.Intn(4)
 	wPer := 1 + rng.Intn(2)
-	nOps := 3 + rng.Intn(30)
-	toggles := rng.Intn(6)
-	st.shape = fmt.Sprintf("dv/n%d/w%d/t%d", n, wPer, toggles)
+	rounds := 3 + rng.Intn(16)
+	st.shape = fmt.Sprintf("dv/n%d/w%d", n, wPer)
 	in := make([]reactive.Variable[int], 4)
 	for i := range in {
 		in[i] = reactive.NewVariable[int]()
@@ -196,72 +204,75 @@ func runDV(rng *rand.Rand) (viols []viol, st runStats) {
 	dvf := reactive.NewVariable[int]()
 	dvf.DeriveValueFrom(second)
 	tog := reactive.NewVariable[int]()
+	unsubTog := tog.InheritFrom(d)
 
 	type step struct{ kind, val, y int }
-	g := newGroup()
-	for i := 0; i < n; i++ {
-		for w := 0; w < wPer; w++ {
-			plan := make([]step, nOps)
-			for k := range plan {
-				plan[k] = step{rng.Intn(3), rng.Intn(1000), rng.Intn(4)}
-			}
-			v := in[i]
-			g.spawn(fmt.Sprintf("writer of input %d", i), func() {
-				for _, s := range plan {
-					yield(s.y)
-					switch s.kind {
-					case 0, 1:
-						v.Set(s.val)
-					case 2:
-						v.Compute(func(c int) int { return (c + s.val) % 1000 })
-					}
-					progress.Add(1)
+	overl := 0
+	// every round ends in a quiescent point (all writers joined) at which the oracle is evaluated
+	for r := 0; r < rounds; r++ {
+		g := newGroup()
+		for i := 0; i < n; i++ {
+			for w := 0; w < wPer; w++ {
+				plan := make([]step, 1+rng.Intn(3))
+				for k := range plan {
+					plan[k] = step{rng.Intn(3), rng.Intn(1000), rng.Intn(3)}
 				}
+				st.ops += len(plan)
+				v := in[i]
+				g.spawn(fmt.Sprintf("writer of input %d", i), func() {
+					for _, s := range plan {
+						yield(s.y)
+						switch s.kind {
+						case 0, 1:
+							v.Set(s.val)
+						case 2:
+							v.Compute(func(c int) int { return (c + s.val) % 1000 })
+						}
+						progress.Add(1)
+					}
+				})
+			}
+		}
+		if rng.Intn(3) == 0 {
+			y := rng.Intn(10)
+			st.structural++
+			g.spawn("inheritance toggler", func() {
+				yield(y)
+				unsubTog()
+				yield(y / 2)
+				unsubTog = tog.InheritFrom(d)
+				progress.Add(1)
 			})
 		}
-	}
-	togYields := make([]int, toggles)
-	for i := range togYields {
-		togYields[i] = rng.Intn(40)
-	}
-	g.spawn("inheritance toggler", func() {
-		// ends subscribed
-		unsub := tog.InheritFrom(d)
-		for _, y := range togYields {
-			yield(y)
-			unsub()
-			yield(y / 2)
-			unsub = tog.InheritFrom(d)
-			progress.Add(1)
+		g.run()
+		overl += overlapping(g.spans)
+		st.nontrivial = overl > 0
+		if len(g.pn.rec) > 0 {
+			return nil, st // reported by the guard
 		}
-	})
-	g.run()
-	st.ops = n * wPer * nOps
-	st.structural = toggles
-	st.nontrivial = overlapping(g.spans) > 0
-	if len(g.pn.rec) > 0 {
-		return []viol{{"derivedvariable/panic", "panic: " + g.pn.rec[0].Value, g.pn.rec}}, st
-	}
-	vals := make([]int, n)
-	for i := range vals {
-		vals[i] = in[i].Get()
-	}
-	want := f(vals...)
-	det := map[string]any{"inputs": vals, "want": want, "derived": d.Get(), "inherit": inh.Get(), "second": second.Get(), "deriveValueFrom": dvf.Get(), "toggled_inherit": tog.Get()}
-	if got := d.Get(); got != want {
-		viols = append(viols, viol{fmt.Sprintf("derivedvariable%d/diverges", n), fmt.Sprintf("DerivedVariable%d = %d but compute(inputs %v) = %d after all writers returned", n, got, vals, want), det})
-		return
-	}
-	if got := inh.Get(); got != want {
-		viols = append(viols, viol{"inheritfrom/diverges", fmt.Sprintf("InheritFrom copy = %d, source = %d", got, want), det})
-	}
-	if got := tog.Get(); got != want {
-		viols = append(viols, viol{"inheritfrom/diverges-after-resubscribe", fmt.Sprintf("InheritFrom copy (re-subscribed %d times during the writes) = %d, source = %d", toggles, got, want), det})
-	}
-	if got := second.Get(); got != 2*want+1 {
-		viols = append(viols, viol{"derivedvariable1/chained-diverges", fmt.Sprintf("derived-of-derived = %d, want %d", got, 2*want+1), det})
-	} else if got := dvf.Get(); got != 2*want+1 {
-		viols = append(viols, viol{"derivevaluefrom/diverges", fmt.Sprintf("DeriveValueFrom target = %d, want %d", got, 2*want+1), det})
+		vals := make([]int, n)
+		for i := range vals {
+			vals[i] = in[i].Get()
+		}
+		want := f(vals...)
+		det := map[string]any{"round": r, "inputs": vals, "want": want, "derived": d.Get(), "inherit": inh.Get(), "second": second.Get(), "deriveValueFrom": dvf.Get(), "toggled_inherit": tog.Get()}
+		if got := d.Get(); got != want {
+			return []viol{{fmt.Sprintf("derivedvariable%d/diverges", n), fmt.Sprintf("DerivedVariable%d = %d but compute(inputs %v) = %d after all writers returned", n, got, vals, want), det}}, st
+		}
+		if got := inh.Get(); got != want {
+			viols = append(viols, viol{"inheritfrom/diverges", fmt.Sprintf("InheritFrom copy = %d, source = %d", got, want), det})
+		}
+		if got := tog.Get(); got != want {
+			viols = append(viols, viol{"inheritfrom/diverges-after-resubscribe", fmt.Sprintf("InheritFrom copy (re-subscribed during the writes) = %d, source = %d", got, want), det})
+		}
+		if got := second.Get(); got != 2*want+1 {
+			viols = append(viols, viol{"derivedvariable1/chained-diverges", fmt.Sprintf("derived-of-derived = %d, want %d", got, 2*want+1), det})
+		} else if got := dvf.Get(); got != 2*want+1 {
+			viols = append(viols, viol{"derivevaluefrom/diverges", fmt.Sprintf("DeriveValueFrom target = %d, want %d", got, 2*want+1), det})
+		}
+		if len(viols) > 0 {
+			return
+		}
 	}
 	return
 }
@@ -392,6 +403,7 @@ func runDSet(rng *rand.Rand) (viols []viol, st runStats) {
 			if got, w := maskOf(D), want(); got != w {
 				det := state()
 				det["history"] = hist
+				st.nontrivial = true
 				fp := "derivedset/diverges-after/" + kind
 				if replaced { // Replace on a source in this history: one class, whether the divergence shows at once or later
 					fp = "derivedset/diverges-after-source-replace"
@@ -402,47 +414,50 @@ func runDSet(rng *rand.Rand) (viols []viol, st runStats) {
 		st.nontrivial = st.ops >= 3
 		return
 	}
-	g := newGroup()
-	for i := 0; i < K; i++ {
-		for w := 0; w < 1+rng.Intn(2); w++ {
-			plan := make([]setStep, nOps)
-			for k := range plan {
-				plan[k] = genSetStep(rng, i, U, withReplace)
-			}
-			st.ops += nOps
-			g.spawn(fmt.Sprintf("writer of source %d", i), func() {
-				for _, s := range plan {
-					yield(s.Yield)
-					execSetStep(src[s.Src], s)
-					progress.Add(1)
+	rounds := 3 + rng.Intn(12)
+	overl := 0
+	for r := 0; r < rounds; r++ {
+		g := newGroup()
+		for i := 0; i < K; i++ {
+			for w := 0; w < 1+rng.Intn(2); w++ {
+				plan := make([]setStep, 1+rng.Intn(3))
+				for k := range plan {
+					plan[k] = genSetStep(rng, i, U, withReplace)
 				}
+				st.ops += len(plan)
+				g.spawn(fmt.Sprintf("writer of source %d", i), func() {
+					for _, s := range plan {
+						yield(s.Yield)
+						execSetStep(src[s.Src], s)
+						progress.Add(1)
+					}
+				})
+			}
+		}
+		if rng.Intn(2) == 0 {
+			ti, ty := rng.Intn(K), rng.Intn(10)
+			st.structural++
+			g.spawn("source toggler", func() {
+				yield(ty)
+				toggleSrc(ti)
+				progress.Add(1)
 			})
 		}
-	}
-	nTog := rng.Intn(8)
-	togPlan := make([][2]int, nTog)
-	for i := range togPlan {
-		togPlan[i] = [2]int{rng.Intn(K), rng.Intn(40)}
-	}
-	st.structural = nTog
-	g.spawn("source toggler", func() {
-		for _, t := range togPlan {
-			yield(t[1])
-			toggleSrc(t[0])
-			progress.Add(1)
+		g.run()
+		overl += overlapping(g.spans)
+		st.nontrivial = overl > 0
+		if len(g.pn.rec) > 0 {
+			return nil, st
 		}
-	})
-	g.run()
-	st.nontrivial = overlapping(g.spans) > 0
-	if len(g.pn.rec) > 0 {
-		return []viol{{"derivedset/panic", "panic: " + g.pn.rec[0].Value, g.pn.rec}}, st
-	}
-	if got, w := maskOf(D), want(); got != w {
-		cls := "derivedset/diverges/concurrent"
-		if withReplace {
-			cls = "derivedset/diverges-after-source-replace"
+		if got, w := maskOf(D), want(); got != w {
+			cls := "derivedset/diverges/concurrent"
+			if withReplace {
+				cls = "derivedset/diverges-after-source-replace"
+			}
+			det := state()
+			det["round"] = r
+			return []viol{{cls, fmt.Sprintf("after all writers returned the DerivedSet holds %s but the union of its inherited sources is %s", mstr(got), mstr(w)), det}}, st
 		}
-		viols = append(viols, viol{cls, fmt.Sprintf("after all writers returned the DerivedSet holds %s but the union of its inherited sources is %s", mstr(got), mstr(w)), state()})
 	}
 	return
 }
@@ -492,6 +507,7 @@ func runSubtract(rng *rand.Rand) (viols []viol, st runStats) {
 			if got, w := maskOf(R), want(); got != w {
 				det := state()
 				det["history"] = hist
+				st.nontrivial = true
 				fp := "subtractreactive/diverges-after/" + s.Kind
 				if replaced {
 					fp = "subtractreactive/diverges-after-source-replace"
@@ -502,32 +518,39 @@ func runSubtract(rng *rand.Rand) (viols []viol, st runStats) {
 		st.nontrivial = true
 		return
 	}
-	g := newGroup()
-	for i := 0; i < K; i++ {
-		plan := make([]setStep, nOps)
-		for k := range plan {
-			plan[k] = genSetStep(rng, i, U, withReplace)
-		}
-		st.ops += nOps
-		g.spawn(fmt.Sprintf("writer of set %d", i), func() {
-			for _, s := range plan {
-				yield(s.Yield)
-				execSetStep(sets[s.Src], s)
-				progress.Add(1)
+	rounds := 3 + rng.Intn(12)
+	overl := 0
+	for r := 0; r < rounds; r++ {
+		g := newGroup()
+		for i := 0; i < K; i++ {
+			plan := make([]setStep, 1+rng.Intn(3))
+			for k := range plan {
+				plan[k] = genSetStep(rng, i, U, withReplace)
 			}
-		})
-	}
-	g.run()
-	st.nontrivial = overlapping(g.spans) > 0
-	if len(g.pn.rec) > 0 {
-		return []viol{{"subtractreactive/panic", "panic: " + g.pn.rec[0].Value, g.pn.rec}}, st
-	}
-	if got, w := maskOf(R), want(); got != w {
-		cls := "subtractreactive/diverges/concurrent"
-		if withReplace {
-			cls = "subtractreactive/diverges-after-source-replace"
+			st.ops += len(plan)
+			g.spawn(fmt.Sprintf("writer of set %d", i), func() {
+				for _, s := range plan {
+					yield(s.Yield)
+					execSetStep(sets[s.Src], s)
+					progress.Add(1)
+				}
+			})
 		}
-		viols = append(viols, viol{cls, fmt.Sprintf("after all writers returned SubtractReactive holds %s, source minus others is %s", mstr(got), mstr(w)), state()})
+		g.run()
+		overl += overlapping(g.spans)
+		st.nontrivial = overl > 0
+		if len(g.pn.rec) > 0 {
+			return nil, st
+		}
+		if got, w := maskOf(R), want(); got != w {
+			cls := "subtractreactive/diverges/concurrent"
+			if withReplace {
+				cls = "subtractreactive/diverges-after-source-replace"
+			}
+			det := state()
+			det["round"] = r
+			return []viol{{cls, fmt.Sprintf("after all writers returned SubtractReactive holds %s, source minus others is %s", mstr(got), mstr(w)), det}}, st
+		}
 	}
 	return
 }
@@ -537,7 +560,7 @@ func runSubtract(rng *rand.Rand) (viols []viol, st runStats) {
 func runCounter(rng *rand.Rand) (viols []viol, st runStats) {
 	n := 2 + rng.Intn(5)
 	custom := rng.Intn(2) == 0
-	nOps := 3 + rng.Intn(30)
+	rounds := 3 + rng.Intn(14)
 	st.shape = fmt.Sprintf("counter/n%d/custom%v", n, custom)
 	cond := func(v int) bool { return v != 0 }
 	var cnt reactive.Counter[int]
@@ -548,7 +571,7 @@ func runCounter(rng *rand.Rand) (viols []viol, st runStats) {
 		cnt = reactive.NewCounter[int]()
 	}
 	in := make([]reactive.Variable[int], n)
-	monitored := make([]atomic.Bool, n)
+	monitored := make([]bool, n)
 	var late []int
 	for i := range in {
 		in[i] = reactive.NewVariable[int]()
@@ -561,54 +584,56 @@ func runCounter(rng *rand.Rand) (viols []viol, st runStats) {
 			late = append(late, i)
 		default:
 			cnt.Monitor(in[i])
-			monitored[i].Store(true)
+			monitored[i] = true
 		}
 	}
-	g := newGroup()
-	for i := range in {
-		plan := make([][2]int, nOps)
-		for k := range plan {
-			plan[k] = [2]int{rng.Intn(4), rng.Intn(4)}
-		}
-		v := in[i]
-		g.spawn(fmt.Sprintf("writer of input %d", i), func() {
-			for _, s := range plan {
-				yield(s[1])
-				v.Set(s[0])
-				progress.Add(1)
+	overl := 0
+	for r := 0; r < rounds; r++ {
+		g := newGroup()
+		for i := range in {
+			plan := make([][2]int, 1+rng.Intn(3))
+			for k := range plan {
+				plan[k] = [2]int{rng.Intn(4), rng.Intn(3)}
 			}
-		})
-	}
-	lateY := make([]int, len(late))
-	for i := range lateY {
-		lateY[i] = rng.Intn(60)
-	}
-	g.spawn("monitor adder", func() {
-		for k, i := range late {
-			yield(lateY[k])
-			cnt.Monitor(in[i])
-			monitored[i].Store(true)
-			progress.Add(1)
+			st.ops += len(plan)
+			v := in[i]
+			g.spawn(fmt.Sprintf("writer of input %d", i), func() {
+				for _, s := range plan {
+					yield(s[1])
+					v.Set(s[0])
+					progress.Add(1)
+				}
+			})
 		}
-	})
-	g.run()
-	st.ops = n * nOps
-	st.structural = len(late)
-	st.nontrivial = overlapping(g.spans) > 0
-	if len(g.pn.rec) > 0 {
-		return []viol{{"counter/panic", "panic: " + g.pn.rec[0].Value, g.pn.rec}}, st
-	}
-	want := 0
-	var vals []string
-	for i := range in {
-		v := in[i].Get()
-		vals = append(vals, fmt.Sprintf("input %d monitored=%v value=%d", i, monitored[i].Load(), v))
-		if monitored[i].Load() && cond(v) {
-			want++
+		if len(late) > 0 && rng.Intn(2) == 0 {
+			li, ly := late[0], rng.Intn(10)
+			late = late[1:]
+			st.structural++
+			g.spawn("monitor adder", func() {
+				yield(ly)
+				cnt.Monitor(in[li])
+				monitored[li] = true
+				progress.Add(1)
+			})
 		}
-	}
-	if got := cnt.Get(); got != want {
-		viols = append(viols, viol{"counter/diverges", fmt.Sprintf("Counter = %d but %d monitored inputs satisfy the condition", got, want), vals})
+		g.run()
+		overl += overlapping(g.spans)
+		st.nontrivial = overl > 0
+		if len(g.pn.rec) > 0 {
+			return nil, st
+		}
+		want := 0
+		var vals []string
+		for i := range in {
+			v := in[i].Get()
+			vals = append(vals, fmt.Sprintf("input %d monitored=%v value=%d", i, monitored[i], v))
+			if monitored[i] && cond(v) {
+				want++
+			}
+		}
+		if got := cnt.Get(); got != want {
+			return []viol{{"counter/diverges", fmt.Sprintf("Counter = %d but %d monitored inputs satisfy the condition (round %d)", got, want, r), vals}}, st
+		}
 	}
 	return
 }
@@ -784,10 +809,20 @@ func runSS[E comparable](k elemKind[E], scenario string, rng *rand.Rand) (viols 
 	U := 2 + rng.Intn(7)
 	env := newSSEnv(k, U, rng)
 	st.shape = fmt.Sprintf("%s/%s/u%d", scenario, k.name, U)
-	final := func(class string) {
+	overl := 0
+	// roundDone joins the round's goroutines and evaluates the oracle at the quiescent point
+	roundDone := func(g *group, class string) bool {
+		g.run()
+		overl += overlapping(g.spans)
+		st.nontrivial = overl > 0
+		if len(g.pn.rec) > 0 {
+			return false
+		}
 		if kind, what, det := env.check(); kind != "" {
 			viols = append(viols, viol{"sortedset/" + kind + "/" + class, what + " (after all writers returned)", det})
+			return false
 		}
+		return true
 	}
 	switch scenario {
 	case "ss-seq":
@@ -807,6 +842,7 @@ func runSS[E comparable](k elemKind[E], scenario string, rng *rand.Rand) (viols 
 			st.ops++
 			if kind, what, det := env.check(); kind != "" {
 				det["history"] = hist
+				st.nontrivial = true
 				fp := "sortedset/" + kind + "-after/" + s.Kind
 				if replaced {
 					fp = "sortedset/diverges-after-replace"
@@ -822,123 +858,188 @@ func runSS[E comparable](k elemKind[E], scenario string, rng *rand.Rand) (viols 
 		for i := 1; i <= U; i++ {
 			own[i%G] = append(own[i%G], i)
 		}
-		g := newGroup()
-		for gi := 0; gi < G; gi++ {
-			if len(own[gi]) == 0 {
-				continue
-			}
-			n := 5 + rng.Intn(50)
-			plan := make([]ssStep, n)
-			for i := range plan {
-				plan[i] = genSSStep(rng, U, own[gi], []string{"add", "add", "delete", "weight", "weight", "wcompute"})
-			}
-			st.ops += n
-			g.spawn(fmt.Sprintf("owner %d", gi), func() {
-				for _, s := range plan {
-					yield(s.Yield)
-					env.exec(s)
-					progress.Add(1)
+		for r, rounds := 0, 3+rng.Intn(12); r < rounds; r++ {
+			g := newGroup()
+			for gi := 0; gi < G; gi++ {
+				if len(own[gi]) == 0 {
+					continue
 				}
-			})
+				plan := make([]ssStep, 1+rng.Intn(5))
+				for i := range plan {
+					plan[i] = genSSStep(rng, U, own[gi], []string{"add", "add", "delete", "weight", "weight", "wcompute"})
+				}
+				st.ops += len(plan)
+				st.structural += len(plan) / 2
+				g.spawn(fmt.Sprintf("owner %d", gi), func() {
+					for _, s := range plan {
+						yield(s.Yield)
+						env.exec(s)
+						progress.Add(1)
+					}
+				})
+			}
+			if !roundDone(g, "owner-partitioned") {
+				return
+			}
 		}
-		g.run()
-		st.nontrivial = overlapping(g.spans) > 0
-		if len(g.pn.rec) > 0 {
-			return []viol{{"sortedset/panic/owner-partitioned", "panic: " + g.pn.rec[0].Value, g.pn.rec}}, st
-		}
-		final("owner-partitioned")
 	case "ss-addw":
-		// one goroutine adds every element once; others keep changing the weights of those elements
-		g := newGroup()
+		// one goroutine adds the elements one by one; others keep changing the weights of all elements
 		order := rng.Perm(U)
-		ay := make([]int, U)
-		for i := range ay {
-			ay[i] = rng.Intn(6)
-		}
-		g.spawn("adder", func() {
-			for i, o := range order {
-				yield(ay[i])
-				env.exec(ssStep{Kind: "add", E: o + 1})
-				progress.Add(1)
-			}
-		})
 		B := 1 + rng.Intn(3)
-		for b := 0; b < B; b++ {
-			n := 10 + rng.Intn(60)
-			plan := make([]ssStep, n)
-			for i := range plan {
-				plan[i] = genSSStep(rng, U, allElems(U), []string{"weight", "wcompute"})
-			}
-			st.ops += n
-			g.spawn("weight writer", func() {
-				for _, s := range plan {
-					yield(s.Yield)
-					env.exec(s)
+		for r := 0; r < U+2; r++ {
+			g := newGroup()
+			if r < U {
+				e, y := order[r]+1, rng.Intn(6)
+				st.structural++
+				g.spawn("adder", func() {
+					yield(y)
+					env.exec(ssStep{Kind: "add", E: e})
 					progress.Add(1)
+				})
+			}
+			for b := 0; b < B; b++ {
+				plan := make([]ssStep, 2+rng.Intn(6))
+				for i := range plan {
+					plan[i] = genSSStep(rng, U, allElems(U), []string{"weight", "wcompute"})
 				}
-			})
+				st.ops += len(plan)
+				g.spawn("weight writer", func() {
+					for _, s := range plan {
+						yield(s.Yield)
+						env.exec(s)
+						progress.Add(1)
+					}
+				})
+			}
+			if !roundDone(g, "add-vs-weight-update") {
+				return
+			}
 		}
-		g.run()
-		st.nontrivial = overlapping(g.spans) > 0
-		if len(g.pn.rec) > 0 {
-			return []viol{{"sortedset/panic/add-vs-weight-update", "panic: " + g.pn.rec[0].Value, g.pn.rec}}, st
-		}
-		final("add-vs-weight-update")
 	case "ss-dl":
 		// Delete+Add of elements whose weights other goroutines update at the same time
 		for i := 1; i <= U; i++ {
 			env.ss.Add(k.mk(i))
 		}
-		g := newGroup()
 		A := 1 + rng.Intn(2)
-		for a := 0; a < A; a++ {
-			n := 5 + rng.Intn(40)
-			plan := make([]ssStep, n)
-			for i := range plan {
-				plan[i] = genSSStep(rng, U, allElems(U), []string{"add", "delete", "delete"})
-			}
-			st.ops += n
-			st.structural += n
-			g.spawn("add/delete writer", func() {
-				for _, s := range plan {
-					yield(s.Yield)
-					env.exec(s)
-					if s.Kind == "delete" {
-						env.exec(ssStep{Kind: "add", E: s.E})
-					}
-					progress.Add(1)
-				}
-			})
-		}
 		B := 1 + rng.Intn(3)
-		for b := 0; b < B; b++ {
-			n := 10 + rng.Intn(60)
-			plan := make([]ssStep, n)
-			for i := range plan {
-				plan[i] = genSSStep(rng, U, allElems(U), []string{"weight", "wcompute"})
-			}
-			st.ops += n
-			g.spawn("weight writer", func() {
-				for _, s := range plan {
-					yield(s.Yield)
-					env.exec(s)
-					progress.Add(1)
+		for r, rounds := 0, 3+rng.Intn(10); r < rounds; r++ {
+			g := newGroup()
+			for a := 0; a < A; a++ {
+				plan := make([]ssStep, 1+rng.Intn(4))
+				for i := range plan {
+					plan[i] = genSSStep(rng, U, allElems(U), []string{"add", "delete", "delete"})
 				}
-			})
+				st.ops += len(plan)
+				st.structural += len(plan)
+				g.spawn("add/delete writer", func() {
+					for _, s := range plan {
+						yield(s.Yield)
+						env.exec(s)
+						if s.Kind == "delete" && s.Yield%2 == 0 {
+							env.exec(ssStep{Kind: "add", E: s.E})
+						}
+						progress.Add(1)
+					}
+				})
+			}
+			for b := 0; b < B; b++ {
+				plan := make([]ssStep, 2+rng.Intn(6))
+				for i := range plan {
+					plan[i] = genSSStep(rng, U, allElems(U), []string{"weight", "wcompute"})
+				}
+				st.ops += len(plan)
+				g.spawn("weight writer", func() {
+					for _, s := range plan {
+						yield(s.Yield)
+						env.exec(s)
+						progress.Add(1)
+					}
+				})
+			}
+			if !roundDone(g, "delete-vs-weight-update") {
+				return
+			}
 		}
-		g.run()
-		st.nontrivial = overlapping(g.spans) > 0
-		if len(g.pn.rec) > 0 {
-			return []viol{{"sortedset/panic/delete-vs-weight-update", "panic: " + g.pn.rec[0].Value, g.pn.rec}}, st
-		}
-		final("delete-vs-weight-update")
 	}
 	return
 }
 
 // ============================================================== WaitGroup
 
+// runWGReadd: elements that are already pending are added again while they are marked done. At the quiescent point
+// "nothing pending" must imply "triggered" (the last pending element has been marked done).
+func runWGReadd(rng *rand.Rand) (viols []viol, st runStats) {
+	U := 1 + rng.Intn(3)
+	A := 1 + rng.Intn(2)
+	st.shape = fmt.Sprintf("wg/readd/u%d/a%d", U, A)
+	all := make([]int, U)
+	for i := range all {
+		all[i] = i + 1
+	}
+	overl := 0
+	for r, rounds := 0, 6+rng.Intn(20); r < rounds; r++ {
+		w := reactive.NewWaitGroup[int](all...)
+		var fired atomic.Int32
+		w.OnTrigger(func() { fired.Add(1) })
+		g := newGroup()
+		var readds [][]int
+		for a := 0; a < A; a++ {
+			var els []int
+			for _, e := range all {
+				if rng.Intn(2) == 0 {
+					els = append(els, e)
+				}
+			}
+			if len(els) == 0 {
+				els = []int{all[rng.Intn(U)]}
+			}
+			readds = append(readds, els)
+			y := rng.Intn(4)
+			st.ops += len(els)
+			g.spawn("re-adder", func() {
+				yield(y)
+				for _, e := range els {
+					w.Add(e)
+				}
+				progress.Add(1)
+			})
+		}
+		y := rng.Intn(4)
+		perm := rng.Perm(U)
+		st.ops += U
+		g.spawn("done", func() {
+			yield(y)
+			for _, i := range perm {
+				w.Done(all[i])
+			}
+			progress.Add(1)
+		})
+		g.run()
+		overl += overlapping(g.spans)
+		st.nontrivial = overl > 0
+		if len(g.pn.rec) > 0 {
+			return nil, st
+		}
+		pend := w.PendingElements().ToSlice()
+		det := map[string]any{"round": r, "initially_pending": all, "added_again_concurrently": readds, "pending": pend, "triggered": w.WasTriggered(), "handler_runs": fired.Load()}
+		if len(pend) == 0 && !w.WasTriggered() {
+			return []viol{{"waitgroup/never-triggers-although-nothing-pending", fmt.Sprintf("elements %v were pending, Add of already pending elements %v raced with Done of all of them; now nothing is pending, every call has returned and the WaitGroup has not triggered (Wait() would block for ever)", all, readds), det}}, st
+		}
+		if len(pend) > 0 && w.WasTriggered() {
+			// legal: it triggered when the set was transiently empty
+			st.add("wg_triggered_then_readded", 1)
+		}
+		if w.WasTriggered() && fired.Load() != 1 {
+			return []viol{{"waitgroup/handler-count", fmt.Sprintf("OnTrigger handler ran %d times", fired.Load()), det}}, st
+		}
+	}
+	return
+}
+
 func runWG(rng *rand.Rand) (viols []viol, st runStats) {
+	if rng.Intn(3) == 0 {
+		return runWGReadd(rng)
+	}
 	const z = 999
 	G := 1 + rng.Intn(4)
 	U := 1 + rng.Intn(5)
@@ -999,7 +1100,7 @@ func runWG(rng *rand.Rand) (viols []viol, st runStats) {
 			return []viol{{"waitgroup/triggered-early", "the WaitGroup triggered before Done(z) was invoked although z had been pending since the beginning", det()}}, st
 		}
 		if w.PendingElements().Size() == 0 && !w.WasTriggered() {
-			return []viol{{"waitgroup/not-triggered", "no element is pending after all goroutines returned but the WaitGroup has not triggered", det()}}, st
+			return []viol{{"waitgroup/never-triggers-although-nothing-pending", "Add of already pending elements raced with Done: no element is pending after all goroutines returned but the WaitGroup has not triggered (Wait() would block for ever)", det()}}, st
 		}
 	} else {
 		if w.WasTriggered() || fired.Load() != 0 {
@@ -1010,7 +1111,7 @@ func runWG(rng *rand.Rand) (viols []viol, st runStats) {
 		}
 		w.Done(z)
 		if !w.WasTriggered() {
-			return []viol{{"waitgroup/not-triggered", "Done(z) of the last pending element returned but the WaitGroup has not triggered", det()}}, st
+			return []viol{{"waitgroup/not-triggered-by-last-done", "Done(z) of the last pending element returned but the WaitGroup has not triggered", det()}}, st
 		}
 	}
 	if w.WasTriggered() && fired.Load() != 1 {
@@ -1169,6 +1270,7 @@ func child(c *vf.Ctx) {
 		attempts, _ = strconv.Atoi(c.ChildArgs[3])
 	}
 	curScenario.Store(scn)
+	theCtx = c
 	if raceBuild {
 		startSnapshotMonitor(c)
 	}
